@@ -1426,8 +1426,15 @@ func (args LazyArgumentMap) Path(p string, source, dest syntax.Type,
 	}
 	switch t := source.(type) {
 	case *syntax.TypedMapType:
-		if d, ok := dest.(*syntax.TypedMapType); ok {
+		switch d := dest.(type) {
+		case *syntax.TypedMapType:
 			dest = d.Elem
+		case *syntax.BuiltinType:
+			if d.Id == syntax.KindMap {
+				// The projection through a typed map is itself a map, which
+				// an untyped map takes as it is: its values are not maps.
+				dest = nil
+			}
 		}
 		result := make(MarshalerMap, len(args))
 		var errs syntax.ErrorList
